@@ -225,7 +225,7 @@ def ob_psk_energy(M):
 
 # ------------------------------------------------------------------ exhaustive configuration space
 @obligation("config/all_orders_round_trip_energy_distinct", kind="exhaustive", timeout=900,
-            desc="every PSK order 2..2^10 x offsets {0, pi/M, 0.3, -2.5} and every QAM order 4..4^6, BPSK, QPSK: M distinct points, unit mean "
+            desc="every PSK order 2..2^10 x 12 offsets over the whole circle (constructor argument and PSK(M).setPhaseOffset) and every QAM order 4..4^6, BPSK, QPSK: M distinct points, unit mean "
                  "energy (1e-12), demodulate(modulate(all indexes)) == all indexes in 1-D / 2-D / Fortran layouts, K == log2 M, "
                  "idx >= M -> ValueError")
 def ob_config():
@@ -237,11 +237,19 @@ def ob_config():
         for k in range(1, 11):
             for off in (0.0, math.pi / 2**k, 0.3, -2.5):
                 yield {"cls": "PSK", "args": [2**k, off]}
+            # offsets spread over the whole circle (and beyond one turn), given to the constructor and through setPhaseOffset
+            for off in (5 * math.pi / 4, 1.8, 2.3, 3.0, 2 * math.pi - 1e-9, 6.0, 7.5, -0.1):
+                yield {"cls": "PSK", "args": [2**k, off]}
+                yield {"cls": "PSK", "args": [2**k], "then_setPhaseOffset": off}
+            for off in (0.0, math.pi / 2**k, 0.3, -2.5):
+                yield {"cls": "PSK", "args": [2**k], "then_setPhaseOffset": off}
         for k in range(1, 7):
             yield {"cls": "QAM", "args": [4**k]}
 
     def check(case):
         o = getattr(f, case["cls"])(*case["args"])
+        if "then_setPhaseOffset" in case:
+            o.setPhaseOffset(case["then_setPhaseOffset"])
         s = np.asarray(o.symbols)
         M = len(s)
         if case["cls"] in ("PSK", "QAM") and M != case["args"][0]:
